@@ -38,7 +38,8 @@ import (
 // ---------------------------------------------------------------------------------------------- behaviours
 
 type Step struct {
-	A           string `json:"a"` // block | tick | agmove | stop | losedb | restart
+	A           string `json:"a"`   // block | tick | agmove | stop | losedb | restart
+	Exp         any    `json:"exp"` // "tick": the specification's own prediction (passed through to the trace, never used here)
 	Nb          int    `json:"nb"`
 	Nc          int    `json:"nc"`
 	Kind        string `json:"kind"`
@@ -635,6 +636,9 @@ func runOne(tw *tr.W, root string, idx int, b Behaviour, seed int64) error {
 			}
 			ev := tr.M{"ev": "tick", "kind": s.Kind, "checkfail": s.Checkfail, "o": s.O, "sent": rec.sentIDs(), "crashed": crashed,
 				"storefail": s.Storefail, "saves": n.storage.calls, "savefails": n.storage.fails}
+			if s.Exp != nil {
+				ev["exp"], ev["plain"] = s.Exp, s.Storefail == 0 && s.Midblock == 0 && s.L1readfault == 0
+			}
 			tw.Emit(ev)
 			if crashed != "" {
 				n.up, n.ready = false, false
